@@ -273,7 +273,7 @@ func c13Dates(r *h.Result) error {
 }
 
 func c13(r *h.Result, rng *h.Rng, tier string, replay string) error {
-	r.Rule = "confined: a fixed list of 24 LogQL queries covering every stage kind + generated log queries, label-values/series planners, Prometheus matchers with/without hints, 7 TraceQL scripts, 3 Pyroscope selectors × 4 planners; × single-node/cluster × windows (random, and straddling/just after midnight UTC) × 3 process zones; every case is non-trivial (a real statement with ≥1 base-table scan); distinct by (planner, query, window, zone). dates: exhaustive"
+	r.Rule = "confined: a fixed list of 24 LogQL queries covering every stage kind + generated log queries, label-values/series planners, Prometheus matchers with/without hints, 7 TraceQL scripts, 3 Pyroscope selectors × 4 planners; × single-node/cluster × windows (random, and straddling/just after midnight UTC) × 3 process zones; every case is non-trivial (a real statement with ≥1 base-table scan); distinct by (planner, query, window, zone). dates: exhaustive. model-*: grammar-directed requests of the modelled fragments (C08's metric-query generator, C11's TraceQL generator incl. chains of up to 5 selectors and {}, C07's log-selector generator for series/values, Prometheus matchers × every hint function × steps below/equal/above the range, Pyroscope selectors with pseudo-labels) × windows (random, straddling/just after midnight UTC, bucket-aligned) × single-node/cluster; distinct by (request, context)"
 	rounds := 1
 	if tier != "quick" {
 		rounds = 12
@@ -282,6 +282,9 @@ func c13(r *h.Result, rng *h.Rng, tier string, replay string) error {
 		return err
 	}
 	if err := c13Dates(r); err != nil {
+		return err
+	}
+	if err := c13Models(r, rng.Fork(), tier); err != nil {
 		return err
 	}
 	n := 150
